@@ -113,6 +113,8 @@ Record case := mkCase
 Definition agrees (c : case) : bool :=
   (if c_scan_ok c then oapi_eqb (parse (c_toks c)) (c_ast c)
    else match c_ast c with None => true | Some _ => false end)
+  (* the AST the Go parser built satisfies the hypothesis of the theorems *)
+  && match c_ast c with Some a => wf a | None => true end
   && match c_fout c with
      | OOk => oapi_eqb (parse (c_ftoks c)) (c_fast c)
      | _ => true
